@@ -165,6 +165,8 @@ func checkC05(r *Run) {
 	// ---- R-C05-7
 	c.ruleRejectBeforeWrite(r7)
 	c.ruleDeferredCopy(r7)
+	r9 := r.Rule("R-C05-9", "packet identifiers put on the wire are non-zero (MQTT-2.3.1-1): newID returns its draw only on the `id != 0` edge")
+	c.ruleNewIDNonZero(r9)
 	// ---- R-C05-8
 	c.ruleInboundFields(r8)
 	c.ruleGuardTightness(r8, []string{"pktPublish"})
